@@ -5,6 +5,7 @@ package sym
 
 import (
 	"fmt"
+	"go/token"
 	"regexp"
 	"unicode/utf8"
 )
@@ -16,6 +17,77 @@ func init() {
 	atomicField := func(a []value) *value {
 		s := (*a[0].(*value)).(structure)
 		return &s[len(s)-1]
+	}
+	// sync.Map: an association list per receiver, keys of interface type.
+	// (Operations are atomic by contract; the lock analysis treats them like
+	// sync.Pool and sync.Once internals.)
+	syncMapOf := func(fr *frame, recv value) *smap {
+		p := recv.(*value)
+		i := fr.i
+		if i.syncMaps == nil {
+			i.syncMaps = map[*value]*smap{}
+		}
+		m := i.syncMaps[p]
+		if m == nil {
+			m = newSmap(tEmptyIface)
+			i.syncMaps[p] = m
+		}
+		return m
+	}
+	intrinsics["(*sync.Map).Load"] = func(fr *frame, a []value) value {
+		v, ok := syncMapOf(fr, a[0]).lookup(fr.i, a[1])
+		if !ok {
+			return tuple{iface{}, false}
+		}
+		return tuple{v, true}
+	}
+	intrinsics["(*sync.Map).Store"] = func(fr *frame, a []value) value {
+		syncMapOf(fr, a[0]).insert(fr.i, a[1], a[2])
+		return nil
+	}
+	intrinsics["(*sync.Map).LoadOrStore"] = func(fr *frame, a []value) value {
+		m := syncMapOf(fr, a[0])
+		if v, ok := m.lookup(fr.i, a[1]); ok {
+			return tuple{v, true}
+		}
+		m.insert(fr.i, a[1], a[2])
+		return tuple{a[2], false}
+	}
+	intrinsics["(*sync.Map).LoadAndDelete"] = func(fr *frame, a []value) value {
+		m := syncMapOf(fr, a[0])
+		v, ok := m.lookup(fr.i, a[1])
+		if !ok {
+			return tuple{iface{}, false}
+		}
+		m.delete(fr.i, a[1])
+		return tuple{v, true}
+	}
+	intrinsics["(*sync.Map).Delete"] = func(fr *frame, a []value) value {
+		syncMapOf(fr, a[0]).delete(fr.i, a[1])
+		return nil
+	}
+	intrinsics["(*sync.Map).Swap"] = func(fr *frame, a []value) value {
+		m := syncMapOf(fr, a[0])
+		v, ok := m.lookup(fr.i, a[1])
+		m.insert(fr.i, a[1], a[2])
+		if !ok {
+			return tuple{iface{}, false}
+		}
+		return tuple{v, true}
+	}
+	intrinsics["(*sync.Map).Clear"] = func(fr *frame, a []value) value {
+		syncMapOf(fr, a[0]).ents = nil
+		return nil
+	}
+	intrinsics["(*sync.Map).Range"] = func(fr *frame, a []value) value {
+		m := syncMapOf(fr, a[0])
+		for _, e := range append([]smapEntry(nil), m.ents...) {
+			r := call(fr.i, fr, token.NoPos, a[1], []value{e.k, e.v})
+			if b, ok := r.(bool); ok && !b {
+				break
+			}
+		}
+		return nil
 	}
 	// maps.Clone is implemented by the runtime
 	intrinsics["maps.Clone"] = func(fr *frame, a []value) value {
